@@ -11,6 +11,7 @@ import (
 	"net/url"
 	"os"
 	"sort"
+	"strings"
 
 	"github.com/vulcand/oxy/v2/roundrobin"
 	"github.com/vulcand/oxy/v2/zverif/lib"
@@ -159,13 +160,86 @@ func model(nservers int, ws []int) *lib.Model[*sys] {
 			h, ok := s.pick(d.kind)
 			return fmt.Sprintf("%s/%v", h, ok)
 		case 2:
-			return fmt.Sprint(s.rr.RemoveServer(serverURL(d.srv)))
+			u := serverURL(d.srv)
+			defer lib.ReuseURL(u) // the caller's value, overwritten once the call has returned
+			return fmt.Sprint(s.rr.RemoveServer(u))
 		default:
-			return fmt.Sprint(s.rr.UpsertServer(serverURL(d.srv), roundrobin.Weight(d.w)))
+			u := serverURL(d.srv)
+			defer lib.ReuseURL(u)
+			return fmt.Sprint(s.rr.UpsertServer(u, roundrobin.Weight(d.w)))
 		}
 	}
 	dumper := lib.Dumper{}
 	m.Key = func(s *sys) string { return dumper.Dump(s.rr) }
+	// A REFUSED pool operation (its error says the pool was left as it was) does not change the pool: every window of W
+	// consecutive selections that SPANS it must be exactly proportional too. The windows are rebuilt on a fresh
+	// instance (the searched state must not be disturbed): the selections made since the last successful pool
+	// change, the refused operation, and as many further selections as complete each window.
+	m.OnTransition = func(_ *sys, hist []int, obs []string, rep *lib.Report) {
+		last := len(hist) - 1
+		if k := desc[hist[last]].kind; k < 2 || obs[last] == "<nil>" {
+			return
+		}
+		var pre []string // selections before the refused operation, oldest first
+		for i := last - 1; i >= 0; i-- {
+			d := desc[hist[i]]
+			if d.kind >= 2 {
+				if obs[i] == "<nil>" {
+					break // a successful pool change: windows do not reach across it
+				}
+				continue
+			}
+			if !strings.HasSuffix(obs[i], "/true") {
+				break
+			}
+			pre = append([]string{strings.TrimSuffix(obs[i], "/true")}, pre...)
+		}
+		if len(pre) == 0 {
+			return
+		}
+		s2 := m.New()
+		for _, o := range hist {
+			m.Apply(s2, o)
+		}
+		weights := map[string]int{}
+		g, W := 0, 0
+		for _, u := range s2.rr.Servers() {
+			w, _ := s2.rr.ServerWeight(u)
+			weights[u.Host] = w
+			g = gcd(g, w)
+		}
+		if g == 0 {
+			return
+		}
+		for _, w := range weights {
+			W += w / g
+		}
+		if len(pre) > W-1 {
+			pre = pre[len(pre)-(W-1):]
+		}
+		seq := append([]string{}, pre...)
+		for k := 0; k < W-1; k++ {
+			h, ok := s2.pick(k % 2)
+			if !ok {
+				return // checkWindow reports failing selections
+			}
+			seq = append(seq, h)
+		}
+		rep.Count("windows_spanning_a_refused_pool_operation")
+		for start := 0; start+W <= len(seq); start++ {
+			got := map[string]int{}
+			for _, h := range seq[start : start+W] {
+				got[h]++
+			}
+			for h, w := range weights {
+				if got[h] != w/g {
+					rep.Violate("C01:rr:disproportionate-window:across-refused-operation", fmt.Sprintf("pool %v: %s was refused (%s) and left the pool unchanged, yet the %d consecutive selections %v around it chose %s %d times, want %d", weights, m.Ops[hist[last]], obs[last], W, seq[start:start+W], h, got[h], w/g),
+						map[string]any{"engine": "xstate", "part": "c01", "servers": nservers, "weights": ws, "ops": m.OpNames(hist)})
+					return
+				}
+			}
+		}
+	}
 	m.Check = func(s *sys, hist []int, obs []string, rep *lib.Report) {
 		checkWindow(s, "C01", func() map[string]any {
 			return map[string]any{"engine": "xstate", "part": "c01", "servers": nservers, "weights": ws, "ops": m.OpNames(hist)}
@@ -189,7 +263,7 @@ func Run(tier string, sh lib.Shard, rep *lib.Report) {
 	rep.Bounds["weights"] = ws
 	rep.Bounds["extra_large_weights_thorough"] = tier == "thorough"
 	rep.Rule = "BFS to fixpoint over NextServer/ServeHTTP/Upsert(s,w)/Remove(s) on the real RoundRobin, exact state key = reflective dump (pool order, weights, iterator index and level); in every reached state the next W=sum(w)/gcd selections must contain server i exactly w_i/gcd times; non-trivial = windows checked on a servable pool"
-	rep.Require("windows_checked", "windows_with_common_factor", "windows_with_zero_weight_server", "windows_with_interleaved_sticky_requests")
+	rep.Require("windows_checked", "windows_spanning_a_refused_pool_operation", "windows_with_common_factor", "windows_with_zero_weight_server", "windows_with_interleaved_sticky_requests")
 	// one strongly connected state space: level-synchronous distributed BFS over all workers
 	r := m.RunDistributed(rep, sh, os.Getenv("VERIF_GANG_DIR"))
 	rep.Bounds["search"] = r.Describe()
